@@ -96,8 +96,12 @@ CLAIMS["C03"] = bounded_claim(
     "final compute() pass; empty flow invokes every branch once) exhaustively over branch lists of length 0..3 (thorough 0..4) "
     "of the four kinds with tagged outputs, LenaStopFill at every fill index, bufsize in {1..L+1, 1000, None}, copy_buf, flows "
     "0..4; all 25 branch forms of _get_seq_with_type; bufsize independence; empty Split = identity (same objects); common-type "
-    "methods fill/compute/request/__call__; Zip tuples. No proof obligations yet (Split.run is the protocol-sized proof of "
-    "DESIGN 5/C03). One genuine defect repaired (fix: 70b6ae2).", "DESIGN.md 5 (C03), Appendix A")
+    "methods fill/compute/request/__call__; Zip tuples. Proof obligations (evidence): Split.run's local disciplines - both "
+    "scheduling loops terminate, the active-branch lists stay index-safe, a Source still active at the end implies an empty "
+    "flow, the block is read only at the start of a block, every consuming branch gets its own buffer; Split._fill / "
+    "Zip._fill hand every branch but the last a deep copy; Split._empty_run is the lazy identity. The complete output "
+    "schedule against split_spec is NOT proved (protocol-sized proof of DESIGN 5/C03): bounded. One genuine defect repaired "
+    "(fix: 70b6ae2).", "DESIGN.md 5 (C03), Appendix A")
 CLAIMS["C04"] = dict(
     category="other",
     text="Proof part: at every yield of Sum.compute, Mean.compute and Count.compute the yielded context is an object created "
@@ -137,8 +141,10 @@ CLAIMS["C12"] = bounded_claim(
     "DESIGN.md 5 (C12)")
 CLAIMS["C15"] = dict(
     category="other",
-    text="Proof part: contains(d, s) (the string leaf of a selector) against the key-path walk reference, no exception for "
-         "dictionaries. Bounded part (labelled): Selector / And / Or / Not / SelectContext / Filter against the three-valued "
+    text="Proof part: Selector.__call__ (an exception of the leaf propagates iff raise_on_error, else counts as not selected), "
+         "Not.__call__ (negation; full negation of an error without raise_on_error), And / Or.__call__ (conjunction / "
+         "disjunction over any number of members) over abstract leaf callables; contains(d, s) (the string leaf) against the "
+         "key-path walk reference, no exception for dictionaries. Bounded part (labelled): Selector / And / Or / Not / SelectContext / Filter against the three-valued "
          "reference evaluator over all specifications of nesting <= 2 (and sampled nesting 3) on both raise_on_error flags; "
          "GroupBy against the longest-listed-prefix partition for every group_by / merge labelling of <= 2 (thorough <= 4) of "
          "the 14 key paths over {a,b}, 361 contexts each. Two genuine defects repaired (fix: d3e7985, be31c5e).",
@@ -168,6 +174,10 @@ CLAIMS["C19"] = bounded_claim(
     "(Write leaves output.changed unset when it creates a missing file: the repair contradicts an existing test).",
     "DESIGN.md 5 (C19)")
 CLAIMS["C16"] = bounded_claim(
+    "Proof obligations (evidence): FillRequest._run_fill_compute (the run method of fill/compute and fill/request elements, "
+    "used by FillRequestSeq.run) consumes the flow in consecutive blocks of exactly bufsize values (pulled == blocks x "
+    "bufsize at every block boundary: nothing skipped, nothing read twice), yields only at a block boundary or - with "
+    "yield_on_remainder - for the final partial block, yields nothing for an empty flow, and terminates. "
     "Bounded: FillRequest.run against the block reference blocks_spec for run / fill-compute / fill-request elements, bufsize "
     "1..5, buffer_input / buffer_output, reset, yield_on_remainder, flows 0..11 (thorough 0..16); fill()/request() under ALL "
     "request schedules (request or not after each of 0..L fills, L <= 6, thorough <= 10) with a deterministic step watchdog "
@@ -175,7 +185,7 @@ CLAIMS["C16"] = bounded_claim(
     "sizes dividing and not dividing; FillRequestSeq wiring. Three genuine defects are open known findings identified by "
     "region (buffer_output fill past a full block hangs; buffer_input results after a misaligned request; run element that "
     "does not exhaust its block): every configuration that works today has its own failure ids, so a regression there is "
-    "still reported. No proof obligations yet.", "DESIGN.md 5 (C16)")
+    "still reported. fill()/request() and _run_run are bounded only.", "DESIGN.md 5 (C16)")
 CLAIMS["C09"] = dict(
     category="other",
     text="Proof part: Sum, Mean (ordinary summation), Count, StoreFilled - __init__, fill (bare data and (data, context) pairs), "
@@ -223,15 +233,37 @@ CLAIMS["C13"] = bounded_claim(
     "updates written from the property text; Split copies / intersection; LenaKeyError naming the key; files actually written "
     "by Write and Cache; no static context in run-time contexts except through UpdateContextFromStatic. Two genuine defects "
     "repaired, three recorded as open known findings (empty Split erases the context; Source tail re-threads the context; "
-    "sibling branch after an unresolved key, depth 4). No proof obligations yet.", "DESIGN.md 5 (C13)")
+    "sibling branch after an unresolved key, depth 4). Proof obligations (evidence): ownership - LenaSequence / SetContext "
+    "._get_context return a deep copy equal to the stored context (LenaKeyError when it could not be set); StoreContext, "
+    "UpdateContextFromStatic and MakeFilename retain a deep copy of what they are given and leave the argument unchanged; "
+    "LenaSplit._set_context hands every branch its own deep copy made for it.", "DESIGN.md 5 (C13)")
 CLAIMS["C14"] = bounded_claim(
     "Bounded: Compose(v1..vn) vs the Sequence (v1..vn) vs the fold of tagged pure getters for all chains of 1..5 variables over "
     "3 type alphabets x 4 attribute sets x 10 value contexts (incl. pre-existing typed context.variable), Combine of 1..4, "
     "chains with untyped variables, nested Compose / Combine, keyword arguments; data, same context, name / attributes / type "
     "of the resulting variable, attributes of every composed variable under its type, compose in application order, frame "
     "(context outside `variable` untouched), variables unchanged, repeated application. Two genuine defects repaired, one open "
-    "known finding (chains with untyped variables after a typed context.variable). No proof obligations yet.",
+    "known finding (chains with untyped variables after a typed context.variable). Proof obligations (evidence): "
+    "Variable.__call__ returns getter(data) with the value's own context object, changes nothing of it but context.variable "
+    "and hands _update_context a deep copy of var_context (the variable is never changed by application); the getter of "
+    "Compose is vn.getter(...v1.getter(x)...) for any number of variables. _update_context's dictionary surgery is bounded.",
     "DESIGN.md 5 (C14)")
+CLAIMS["C02"] = dict(
+    category="other",
+    text="Proof part (clauses stated AT THE YIELDS, hence valid for every consumer stop point k and for infinite inputs): "
+         "Run._call_run and Split._empty_run have pulled exactly k values when the k-th result is handed over; Sequence.run and "
+         "Source.__call__ pull nothing while the chain is built; RunIf.run has pulled exactly the values consumed so far; "
+         "Cache.run does not touch the incoming flow when the cache exists; FillRequest._run_fill_compute hands results on only "
+         "at block boundaries; Split.run reads its input only by list(islice(flow, bufsize)) at the start of a block and at "
+         "every yield at most bufsize x (blocks started) values have been pulled - no read-ahead, nothing pulled while the "
+         "results of a block are handed downstream. Bounded part (labelled): an independent list-level oracle computes, by "
+         "brute force over continuations, the shortest input prefix that determines k results and composes it backwards "
+         "through all single / pairs / triples of 59 element instances and 2500 (thorough 40000) random pipelines incl. nested "
+         "RunIf / Split, finite and infinite inputs, every k; weak-reference liveness for negative Slice (|index| values) and "
+         "Split (bufsize values). One genuine defect repaired (Slice kept skipped values alive).",
+    design_ref="DESIGN.md 5 (C02)", technique=TECH,
+    note=TRUST + "; itertools.islice / collections.deque are library contracts; Slice._run_negative_islice, Count.run, Filter.run "
+         "are bounded only; garbage-collector liveness is observable only by the bounded part")
 NA_REASON = "check not built yet (work in progress; see DESIGN.md section 8)"
 
 def main():
